@@ -174,7 +174,7 @@ def run(tier):
         for i, cfg in enumerate(cfgs):
             sub = cs
             if tier == "quick" and cfg != "asm":      # quick: the second configuration gets every other pair
-                sub = [c for c in cs if c["aid"] % 2 == vlib.seed() % 2]
+                sub = [c for c in cs if vlib.pick_hash(c["aid"], 2, vlib.seed())]
             vlib.write_ndjson(cf + "." + cfg, sub)
             out = os.path.join(sc, "al.%s.%s.trace.ndjson" % (fam, cfg))
             run.drive(FAMS[fam], cfg, ["replay", cf + "." + cfg, out]); traces.append(out)
